@@ -14,11 +14,12 @@ func init() {
 			for n := 2; n <= maxN; n++ {
 				cs = append(cs, driver.Case{Harness: "verifH_c16_ber_id", Pkg: "pkcs7", Config: "purego", Params: P("n", n), MaxUnwind: 64, TimeoutS: 2400, MustReach: []string{"der"}})
 			}
+			cs = append(cs, driver.Case{Harness: "verifH_c16_length", Pkg: "pkcs7", Config: "purego", Params: P(), MaxUnwind: 64})
 			return cs
 		},
 		Functions:   []string{"pkcs7.ber2der/readObject/isIndefiniteTermination", "pkcs7.asn1Structured/asn1Primitive.EncodeTo, encodeLength, marshalLongLength, lengthLength", "bytes.Buffer (real code)"},
 		Assumptions: []string{"only the last sentence of the property is decided: for every byte string of the stated length that is a DER TLV tree (definite minimal lengths, children filling their parent exactly, no trailing bytes; reference predicate in harness/pkcs7/c13.go) ber2der returns exactly the input", "signed/enveloped-data behaviour rests on encoding/asn1 reflection and real cryptography and is outside this technique (see DESIGN.md C16)"},
-		Bounds:      map[string]string{"quick": "every byte string of 2..6 bytes", "thorough": "2..8 bytes"},
+		Bounds:      map[string]string{"quick": "every byte string of 2..6 bytes; the length re-encoder for every length 0..2^31-1 (symbolic)", "thorough": "2..8 bytes"},
 		Outside:     []string{"SignedData/EnvelopedData/EncryptedData/SignedAndEnvelopedData production, parsing and verification (encoding/asn1, math/big, real crypto)", "inputs longer than the bound, lengths >= 128"},
 		Oracle:      "structural DER predicate",
 	})
